@@ -32,6 +32,7 @@ SHAPES = {
     "around3": ["name/a", "name/d/b", "name/z"],     # a sub-directory with files sorting before and after it   # byte order and case-folded order differ       # names that collide when case is folded
     "selfname": ["name/name", "name/z"],          # a file called like the torrent inside the payload root
     "selfdir": ["name/name/x", "name/y"],          # a directory called like the torrent inside the payload root
+    "suffixdir": ["name/username/x", "name/rename/name/z", "name/y"],   # directory names that end with the root's name
 }
 
 # ---- naming schemes: the same structural tree under adversarially chosen names --------------------------------
